@@ -5,24 +5,26 @@
 P=$1; D=$2; TIER=${3:-quick}
 export GOFLAGS=-mod=mod GOPROXY=off GOSUMDB=off GOTOOLCHAIN=local
 W=$(mktemp -d /tmp/mutrepo.XXXXXX)
+T=${TRYOUT:-/tmp}   # where the logs of this attempt go (set TRYOUT for concurrent attempts)
 git -C /repo worktree add -q --detach $W HEAD || exit 9
 cd $W
 git apply --check $D/patch.diff || { echo "PATCH DOES NOT APPLY"; cd /; git -C /repo worktree remove --force $W; exit 9; }
+DEMO=$D/demo_test.go; [ -f $DEMO ] || DEMO=$D/demo_test.go.txt   # (kept changes store the demonstration as .txt)
 DEMODIR=.
-grep -q "^package j2x" $D/demo_test.go && DEMODIR=j2x
-grep -q "^package x2j" $D/demo_test.go && { grep -q "x2j-wrapper\|package x2j$" $D/notes.md 2>/dev/null; DEMODIR=x2j-wrapper; }
+grep -q "^package j2x" $DEMO && DEMODIR=j2x
+grep -q "^package x2j" $DEMO && { grep -q "x2j-wrapper\|package x2j$" $D/notes.md 2>/dev/null; DEMODIR=x2j-wrapper; }
 [ -f $D/demo_dir ] && DEMODIR=$(cat $D/demo_dir)
-TESTS="$(grep -o 'func Test[A-Za-z0-9_]*' $D/demo_test.go | sed 's/func //' | paste -sd'|')"
-cp $D/demo_test.go $W/$DEMODIR/zz_demo_test.go
-( cd $W/$DEMODIR && go test -vet=off -count=1 -run "$TESTS" . > /tmp/demo_clean.txt 2>&1 ); DC=$?
+TESTS="$(grep -o 'func Test[A-Za-z0-9_]*' $DEMO | sed 's/func //' | paste -sd'|')"
+cp $DEMO $W/$DEMODIR/zz_demo_test.go
+( cd $W/$DEMODIR && go test -vet=off -count=1 -run "$TESTS" . > $T/demo_clean.txt 2>&1 ); DC=$?
 git apply $D/patch.diff
-( cd $W/$DEMODIR && go test -vet=off -count=1 -run "$TESTS" . > /tmp/demo_mut.txt 2>&1 ); DM=$?
+( cd $W/$DEMODIR && go test -vet=off -count=1 -run "$TESTS" . > $T/demo_mut.txt 2>&1 ); DM=$?
 rm -f $W/$DEMODIR/zz_demo_test.go
-VERIF_REPO=$W ${VDIR:-/verif}/baseline_off.sh > /tmp/suite_mut.txt 2>&1; SU=$?
+VERIF_REPO=$W ${VDIR:-/verif}/baseline_off.sh > $T/suite_mut.txt 2>&1; SU=$?
 echo "demo on clean tree: rc=$DC (want 0) | demo with mutant: rc=$DM (want !=0) | suite with mutant: rc=$SU (want 0)"
 EV=${VDIR:-/verif}/evidence/$P.json; cp $EV /tmp/evidence_keep_$$.json 2>/dev/null   # (evidence of a run against a changed tree is never kept)
-cd ${VDIR:-/verif} && VERIF_REPO=$W python3 check.py $P --tier $TIER > /tmp/check_mut.txt 2>&1; RC=$?
+cd ${VDIR:-/verif} && VERIF_REPO=$W python3 check.py $P --tier $TIER > $T/check_mut.txt 2>&1; RC=$?
 [ -f /tmp/evidence_keep_$$.json ] && mv /tmp/evidence_keep_$$.json $EV
-echo "check $P $TIER exit=$RC"; grep -m4 "VIOLATION\|MACHINERY" /tmp/check_mut.txt; grep -A1 -m2 "VIOLATION" /tmp/check_mut.txt | grep "^   " | cut -c1-300
+echo "check $P $TIER exit=$RC"; grep -m4 "VIOLATION\|MACHINERY" $T/check_mut.txt; grep -A1 -m2 "VIOLATION" $T/check_mut.txt | grep "^   " | cut -c1-300
 cd /; git -C /repo worktree remove --force $W
 exit 0
